@@ -207,3 +207,51 @@ impl PriceFeed {
             .map_err(|_| error!(CoreError::InvalidPriceFeedPrice))
     }
 }
+
+/// Verification hooks (add-only, compiled only with `--cfg gmsol_verif`).
+#[cfg(gmsol_verif)]
+pub mod verif {
+    use super::*;
+
+    /// [`PriceFeed::init`].
+    #[allow(clippy::too_many_arguments)]
+    pub fn init(
+        feed: &mut PriceFeed,
+        bump: u8,
+        index: u16,
+        provider: PriceProviderKind,
+        store: &Pubkey,
+        authority: &Pubkey,
+        token: &Pubkey,
+        feed_id: &Pubkey,
+    ) -> Result<()> {
+        feed.init(bump, index, provider, store, authority, token, feed_id)
+    }
+
+    /// [`PriceFeed::update`].
+    pub fn update(
+        feed: &mut PriceFeed,
+        price: &PriceFeedPrice,
+        max_future_excess: u64,
+        idempotent: bool,
+    ) -> Result<bool> {
+        feed.update(price, max_future_excess, idempotent)
+    }
+
+    /// State injection: overwrite the publication slot / time and the stored price.
+    pub fn set_state(
+        feed: &mut PriceFeed,
+        last_published_at_slot: u64,
+        last_published_at: i64,
+        price: &PriceFeedPrice,
+    ) {
+        feed.last_published_at_slot = last_published_at_slot;
+        feed.last_published_at = last_published_at;
+        feed.price = *price;
+    }
+
+    /// Read the private `last_published_at`.
+    pub fn last_published_at(feed: &PriceFeed) -> i64 {
+        feed.last_published_at
+    }
+}
